@@ -87,3 +87,35 @@ def _set(env, name, val):
             return
         e = e.parent
     env.vars[name] = val
+
+
+class CutSpec:
+    """Cut point at the head of a loop that is unrolled (concrete number of iterations): before iteration
+    k the loop-carried variables must satisfy `inv` (obligation); they are then replaced by arbitrary values
+    satisfying `inv` (havoc(k, current) -> {name: value}, or None to keep the real values, e.g. for k = 0),
+    so that every iteration is verified on its own, for any incoming state; `after(k, values)` lets the
+    contract record the outcome of the iteration."""
+
+    cut = True
+
+    def __init__(self, variables, havoc, inv=None, after=None, name="loop", observe=()):
+        self.variables, self.havoc, self.inv, self.after, self.name = variables, havoc, inv, after, name
+        self.observe = tuple(observe)  # further local variables handed to `after` (ghost observation)
+
+
+def cut_point(interp, spec, k, env):
+    ctx = cur()
+    vals = {name: env.lookup(name) for name in spec.variables}
+    if spec.inv is not None:
+        g = spec.inv(k, vals)
+        if g is not True:
+            ctx.prove(f"{spec.name}:invariant-holds-at-the-head-of-iteration-{k}", g, "inv-pres")
+    new = spec.havoc(k, vals)
+    if new is None:
+        return
+    for name, val in new.items():
+        _set(env, name, val)
+    if spec.inv is not None:
+        g2 = spec.inv(k, {**vals, **new})
+        if g2 is not True:
+            ctx.assume(g2, tag="loop-invariant")
